@@ -176,6 +176,18 @@ def edited_algebra(l, pos, st):
     """The algebra holds for every link *value*: also for a link whose overlap was edited in place after a
     complement had been taken (the documented way to change an alignment), and two complements taken from
     one link are two values. Done on a stand-alone copy built from the text, so the Gfa is not touched."""
+    # make_complement() (in place, on a stand-alone copy): the complement, and the link again when done twice
+    mc = core.call(gfapy.Line, "\t".join(["L"] + list(pos)), vlevel=l.vlevel)
+    if mc.ok:
+        a0, b0 = gtext.link_forms(pos)
+        st.count("oracle.make_complement")
+        r1 = core.call(mc.value.make_complement)
+        t1 = tuple(ob.line_text(mc.value).split("\t")[1:6])
+        r2 = core.call(mc.value.make_complement)
+        t2 = tuple(ob.line_text(mc.value).split("\t")[1:6])
+        if not (r1.ok and r2.ok) or t1 != b0 or t2 != a0:
+            raise core.Violation("complement-wrong", "make_complement() of %r gives %r (expected %r), twice %r" %
+                                 (pos, t1, b0, t2), what="in-place")
     if pos[4] == "*":
         return
     o = core.call(gfapy.Line, "\t".join(["L"] + list(pos)), vlevel=l.vlevel)
